@@ -568,7 +568,10 @@ impl TypeChecker {
                     seen.insert(v.clone(), ty);
                 }
                 let num_vars = seen.len();
-                for (k, (k_span, t)) in variants.iter() {
+                // In source order, so that the error reported does not depend on hash order.
+                let mut sorted_variants: Vec<_> = variants.iter().collect();
+                sorted_variants.sort_by_key(|(_, (s, _))| (s.line_start, s.col_start));
+                for (k, (k_span, t)) in sorted_variants {
                     resolved_variants.insert(
                         k.clone(),
                         (*k_span, self.inner_resolve_type(ctx, t, &mut seen)?),
@@ -609,7 +612,10 @@ impl TypeChecker {
                     seen.insert(v.clone(), ty);
                 }
                 let num_vars = seen.len();
-                for (k, (k_span, t)) in fields.iter() {
+                // In source order, so that the error reported does not depend on hash order.
+                let mut sorted_fields: Vec<_> = fields.iter().collect();
+                sorted_fields.sort_by_key(|(_, (s, _))| (s.line_start, s.col_start));
+                for (k, (k_span, t)) in sorted_fields {
                     resolved_fields.insert(
                         k.clone(),
                         (*k_span, self.inner_resolve_type(ctx, t, &mut seen)?),
